@@ -41,6 +41,7 @@ package main
 
 import (
 	"bytes"
+	"context"
 	"crypto/sha256"
 	"fmt"
 	"math/big"
@@ -48,6 +49,7 @@ import (
 
 	"github.com/superfly/macaroon"
 	"github.com/superfly/macaroon/auth"
+	"github.com/superfly/macaroon/bundle"
 	"github.com/superfly/macaroon/flyio"
 	"github.com/superfly/macaroon/resset"
 )
@@ -892,7 +894,96 @@ func legitHasKey(ks []macaroon.EncryptionKey, k []byte) bool {
 	return false
 }
 
+// caveat sets built with NewCaveatSet(list...) own their caveats: what the caller does with `list` afterwards - append
+// into its spare capacity for the next conditional, overwrite an element - does not reach into a set already made,
+// so a token attenuated with conditionals derived from one base slice verifies and yields them as they were added
+func sharedBaseSliceRun(r *Rng) string {
+	for i := 0; i < 8; i++ {
+		key := r.Bytes(32)
+		m, err := macaroon.New(r.Bytes(8), "https://api.fly.io/v1", key)
+		if err != nil {
+			return "harness-error"
+		}
+		base := make([]macaroon.Caveat, 0, 4)
+		base = append(base, &macaroon.ValidityWindow{NotBefore: 0, NotAfter: int64(4_000_000_000 + i)})
+		aR, aW := resset.ActionRead, resset.ActionWrite
+		first := &resset.IfPresent{Ifs: macaroon.NewCaveatSet(append(base, &aR)...), Else: resset.ActionNone}
+		if m.Add(first) != nil {
+			return "harness-error(add)"
+		}
+		want1 := sxCav(first)
+		second := &resset.IfPresent{Ifs: macaroon.NewCaveatSet(append(base, &aW)...), Else: resset.ActionRead}
+		if m.Add(second) != nil {
+			return "harness-error(add2)"
+		}
+		base[0] = &macaroon.ValidityWindow{NotBefore: 1, NotAfter: 2} // the caller goes on using its slice
+		want2 := sxCav(second)
+		b, err := m.Encode()
+		if err != nil {
+			return "harness-error(encode)"
+		}
+		d, err := macaroon.Decode(b)
+		if err != nil {
+			return "legit-token-does-not-decode"
+		}
+		cs, err := d.Verify(key, nil, nil)
+		if err != nil {
+			return "legitimately-attenuated-token-refused:" + strings.ReplaceAll(err.Error(), " ", "_")
+		}
+		if len(cs.Caveats) != 2 || sxCav(cs.Caveats[0]) != want1 || sxCav(cs.Caveats[1]) != want2 {
+			return "verification-yields-other-conditionals-than-were-added"
+		}
+	}
+	return "match"
+}
+
+// Clone of a caveat set is an independent copy - also of the EMPTY set (a token without caveats of its own): a failed
+// Bundle.Attenuate stages its additions on clones and drops them, so the verified set of such a token stays empty
+func emptySetCloneRun(r *Rng) string {
+	e := macaroon.NewCaveatSet()
+	c, err := e.Clone()
+	if err != nil {
+		return "harness-error"
+	}
+	c.Caveats = append(c.Caveats, &macaroon.ValidityWindow{NotBefore: 0, NotAfter: 1})
+	if len(e.Caveats) != 0 || c == e {
+		return "clone-of-the-empty-set-is-the-set-itself"
+	}
+	key, ka := r.Bytes(32), r.Bytes(32)
+	loc, tpLoc := "https://api.fly.io/v1", "https://auth.example"
+	bare, _ := macaroon.New([]byte("kid"), loc, key)
+	with3p, _ := macaroon.New([]byte("kid"), loc, key)
+	with3p.Add3P(ka, tpLoc)
+	s1, _ := bare.String()
+	s2, _ := with3p.String()
+	b, err := bundle.ParseBundle(loc, "FlyV1 "+s1+","+s2)
+	if err != nil {
+		return "harness-error(bundle)"
+	}
+	sets, _ := b.Verify(context.Background(), bundle.WithKey([]byte("kid"), key, nil))
+	if len(sets) != 1 || len(sets[0].Caveats) != 0 {
+		return "harness-error(verify)"
+	}
+	before := b.Header()
+	c3, _ := macaroon.NewCaveat3P(ka, tpLoc) // refused by the second token: it has a third-party caveat for that location
+	if b.Attenuate(c3) == nil {
+		return "harness-error(attenuate accepted)"
+	}
+	if b.Header() != before {
+		return "failed-attenuation-changed-the-header"
+	}
+	if len(sets[0].Caveats) != 0 {
+		return "failed-attenuation-left-a-caveat-in-the-verified-set-of-a-token-it-did-not-change"
+	}
+	if err := b.Validate(&flyio.Access{OrgID: p64(1), Action: resset.ActionRead}); err != nil {
+		return "failed-attenuation-changed-what-the-bundle-clears"
+	}
+	return "match"
+}
+
 func famLegit(r *Rng, o *Out, tier string) {
+	o.emit("(const match)", sharedBaseSliceRun(r))
+	o.emit("(const match)", emptySetCloneRun(r))
 	n := 600
 	if tier == "thorough" {
 		n = 6000
